@@ -13,7 +13,7 @@ func init() {
 	register(&Property{
 		ID:    "C15",
 		Title: "Response status and length bookkeeping match what was actually sent",
-		Decided: "C15.a one counting gate: the wrapped writer's Write is called only inside (*Response).Write and its WriteHeader only inside (*Response).WriteHeader, and every encoder or writer built by the framework's response code is given the *Response, not the inner writer; " +
+		Decided: "C15.a one counting gate: the wrapped writer's Write is called only inside (*Response).Write and its WriteHeader only inside (*Response).WriteHeader, and every encoder or writer built by the framework's response code is given the *Response, not the inner writer; a function that hands body bytes to the wrapped writer through a wider interface it asserted (ReadFrom, WriteString) adds what that call returned to contentLength; " +
 			"C15.b the gate books what was accepted: Write adds result #0 of the inner Write unconditionally (also when it returns an error) and returns that call's results unchanged, WriteHeader stores its argument and forwards the same argument, and the two counters are stored nowhere else (apart from the constructor's 200); " +
 			"C15.c every non-deprecated method from which the bookkeeping is reachable has a pointer receiver; C15.d in the response writing functions the error of every Write/Encode/nested writer call is returned on the path where it is non-nil, and the status is written before the first body byte.",
 		NotDecided: "that encoding/json and encoding/xml hand all bytes to Write; behaviour with a content coding in between (the property excludes it from the fault clause); user code that writes to the underlying http.ResponseWriter directly.",
@@ -36,6 +36,85 @@ func init() {
 func isInnerWriter(v ssa.Value) bool {
 	_, ok := fieldLoadIs(v, "Response", "ResponseWriter")
 	return ok
+}
+
+// innerWriterAsserted: v is the wrapped writer seen through a type assertion to another interface.
+func innerWriterAsserted(v ssa.Value) bool {
+	v = strip(v)
+	if ex, ok := v.(*ssa.Extract); ok && ex.Index == 0 {
+		v = ex.Tuple
+	}
+	ta, ok := v.(*ssa.TypeAssert)
+	if !ok {
+		return false
+	}
+	if _, isIface := ta.AssertedType.Underlying().(*types.Interface); !isIface {
+		return false
+	}
+	return isInnerWriter(strip(ta.X))
+}
+
+// booksInnerBodyCall: the store is `contentLength = contentLength + <what a body-taking call on the asserted inner
+// writer returned>`; returns that call.
+func booksInnerBodyCall(st *ssa.Store) *ssa.Call {
+	fa, ok := st.Addr.(*ssa.FieldAddr)
+	if !ok || fieldOfAddr(fa).Name() != "contentLength" || ownerOfFieldAddr(fa) != "Response" {
+		return nil
+	}
+	bo, ok := strip(st.Val).(*ssa.BinOp)
+	if !ok || bo.Op != token.ADD {
+		return nil
+	}
+	for _, pr := range [][2]ssa.Value{{bo.X, bo.Y}, {bo.Y, bo.X}} {
+		old, isLoad := strip(pr[0]).(*ssa.UnOp)
+		if !isLoad || old.Op != token.MUL {
+			continue
+		}
+		ofa, ok := old.X.(*ssa.FieldAddr)
+		if !ok || fieldOfAddr(ofa) != fieldOfAddr(fa) || ofa.X != fa.X {
+			continue
+		}
+		v := strip(pr[1])
+		for {
+			cv, isConv := v.(*ssa.Convert)
+			if !isConv {
+				break
+			}
+			v = strip(cv.X)
+		}
+		if ex, ok := v.(*ssa.Extract); ok && ex.Index == 0 {
+			v = ex.Tuple
+		}
+		call, ok := v.(*ssa.Call)
+		if !ok || !call.Call.IsInvoke() || !innerWriterAsserted(call.Call.Value) || !takesBody(call.Call.Method) {
+			continue
+		}
+		return call
+	}
+	return nil
+}
+
+// takesBody: the method has a parameter that can carry body bytes ([]byte, string, io.Reader, io.WriterTo).
+func takesBody(m *types.Func) bool {
+	sig, ok := m.Type().(*types.Signature)
+	if !ok {
+		return false
+	}
+	for k := 0; k < sig.Params().Len(); k++ {
+		t := sig.Params().At(k).Type()
+		if isNamed(t, "io", "Reader") || isNamed(t, "io", "WriterTo") {
+			return true
+		}
+		if b, ok := t.Underlying().(*types.Basic); ok && b.Kind() == types.String {
+			return true
+		}
+		if sl, ok := t.Underlying().(*types.Slice); ok {
+			if b, ok := sl.Elem().Underlying().(*types.Basic); ok && b.Kind() == types.Byte {
+				return true
+			}
+		}
+	}
+	return false
 }
 
 func ruleC15a(c *Ctx) {
@@ -63,6 +142,30 @@ func ruleC15a(c *Ctx) {
 					n++
 					c.check(fn == gateHeader, name, "inner ResponseWriter.WriteHeader", p.ipos(i), "inside the recording gate (*Response).WriteHeader", "the wrapped writer's WriteHeader is called outside (*Response).WriteHeader: the status is not recorded")
 				}
+				return
+			}
+			// the inner writer asserted to a wider interface (`r.ResponseWriter.(io.ReaderFrom)`) and given body bytes
+			// through it: Write is not on that path, so the function itself has to book what the writer accepted
+			if cc.IsInvoke() && innerWriterAsserted(cc.Value) && takesBody(cc.Method) {
+				n++
+				booked := false
+				if call, isCall := i.(*ssa.Call); isCall {
+					var stores []ssa.Instruction
+					eachInstr(fn, func(j ssa.Instruction) {
+						if st, ok := j.(*ssa.Store); ok && booksInnerBodyCall(st) == call {
+							stores = append(stores, j)
+						}
+					})
+					// on every path from the call to a return (also the one on which it failed after a partial write)
+					booked = len(stores) > 0
+					for _, r := range returnsOf(fn) {
+						if booked && canReachAvoiding(call, r, stores) {
+							booked = false
+						}
+					}
+				}
+				c.check(booked, name, "body handed to the inner writer through "+cc.Method.Name()+" is counted", p.ipos(i), "contentLength is updated with what the call returned on every path from the call to a return",
+					"the wrapped writer is given body bytes through "+cc.Method.Name()+" (the writer asserted to a wider interface) and the function does not add what it accepted to contentLength on every path (also when the call failed after a partial write): ContentLength() misses these bytes")
 				return
 			}
 			// the inner writer handed to something that writes
@@ -243,6 +346,8 @@ func ruleC15b(c *Ctx) {
 					n, ok := constInt(st.Val)
 					c.check(ok && n == 200, name, "a new Response starts with status 200", p.ipos(i), "constructor", "a new Response does not start at 200")
 				}
+			case f == "contentLength" && booksInnerBodyCall(st) != nil:
+				// a second way into the wrapped writer (ReadFrom, WriteString) books what that call accepted (C15.a requires it)
 			default:
 				c.bad(name, "store to Response."+f+" outside the gate", p.ipos(i), "the bookkeeping is modified by something other than the gate methods")
 			}
